@@ -3,7 +3,8 @@
 let params = { mo_spin_tas = SeqCst; mo_spin_clear = SeqCst; mo_sync_cas = SeqCst; mo_sync_store = SeqCst;
                mo_once_cas = SeqCst; mo_once_store = SeqCst; mo_once_load = SeqCst; mo_ref_cas = SeqCst }
 let cell_id = function "lock" | "flag" | "ref" -> 0 | "cs" | "body" -> 1 | "-" -> 0 | _ -> 99
-let choice_of op _a _b c = if op = "casw" && c = 2 then 1 else 0
+let choice_of op _a _b c =
+  if op = "casw" && c = 2 then 1 else if op = "fwait" && c = 2 then 2 else if op = "fwait" && c = 3 then 3 else 0
 let note_of text =
   match words text with
   | ["enter"] -> (1, 0) | ["enter"; "OVERLAP"] -> (2, 0) | ["exit"] -> (3, 0)
